@@ -142,10 +142,14 @@ def r4(ctx, prog):
     if ends and starts:
         e_d, s_d = ends[0]["d"], starts[0]["d"]
         ok_start = h.mentions_decl(ends[0]["init"], s_d)
-        cmps = [rl.cmp_parts(h, x) for x in h.all(kind="BinaryOperator") if rl.cmp_parts(h, x)]
-        ge = any(c[0] == ">=" and h.is_ref(c[2], s_d) for c in cmps)
-        lt = any(c[0] == "<" and h.is_ref(c[2], e_d) for c in cmps)
-        ok = ok_start and ge and lt
+        # the answer stored / returned is exactly the conjunction start <= p && p < end (however it is spelled)
+        pm = {d: "$%d" % k for k, d in enumerate(h.pids)}
+        pm[s_d], pm[e_d] = "#start", "#end"
+        ptrs = [pm[d] for d in h.pids if pm[d] != "$0"]
+        want = [frozenset([frozenset([("#start <= %s" % p_, True), ("%s < #end" % p_, True)])]) for p_ in ptrs]
+        cands = [rhs for a, l, rhs, op in h.stores() if op == "=" and rhs is not None] + [h.nodes[r]["val"] for r in h.all(kind="ReturnStmt") if "val" in h.nodes[r]] + \
+                [dd["init"] for _, dd in rl.local_decl(h, lambda dd: "init" in dd)]
+        ok = ok_start and any(rl.dnf(h, x, pmap=pm) in want for x in cands)
     ctx.check(R, ok, h.where(), "owned iff start <= p < start + capacity*block_size", key="C10.R4:check_owned")
     ctx.floor(R, 3)
 
